@@ -40,6 +40,10 @@ fn main() {
         ("w:t", None, wit_pkg("package w:t;\ninterface types { type t = u32; record r { a: u8 } }\ninterface api { use types.{t}; f: func() -> t; }\nworld w { import api; export run: func(); }\n")),
         ("w:t", Some(&v100), wit_pkg("package w:t@1.0.0;\ninterface types { type t = string; }\nworld w { import types; }\n")),
         ("w:t", Some(&v200), wit_pkg("package w:t@2.0.0;\ninterface types { type t = u8; }\n")),
+        // published releases of the document's OWN package name: never to be requested ("never the document's own package")
+        ("test:doc", None, wit_pkg("package test:doc;\ninterface mine { type t = u8; }\n")),
+        ("test:doc", Some(&v100), wit_pkg("package test:doc@1.0.0;\ninterface mine { type t = u16; }\n")),
+        ("test:doc", Some(&v200), wit_pkg("package test:doc@2.0.0;\ninterface mine { type t = u32; }\n")),
     ];
     let stmts: Vec<&str> = vec![
         "import a: w:t/api;",
@@ -54,17 +58,22 @@ fn main() {
         "let m = new missing:pkg { ... };",
         "import c: w:t/types@9.9.9;",
         "let d = new p:lib { x: (new q:lib {}).run };",
+        "interface mine { type t = string; }",
+        "interface k3 { use test:doc/mine.{t}; }",
+        "interface k4 { use test:doc/mine@1.0.0.{t}; }",
+        "world v3 { import test:doc/mine@2.0.0; }",
     ];
     let mut seqs: Vec<Vec<usize>> = vec![vec![]];
     let mut frontier: Vec<Vec<usize>> = vec![vec![]];
     for _ in 0..maxs { let mut next = vec![]; for l in &frontier { for k in 0..stmts.len() { if !l.contains(&k) { let mut m = l.clone(); m.push(k); next.push(m); } } } seqs.extend(next.iter().cloned()); frontier = next; }
     let (mut docs, mut ok, mut errs) = (0u64, 0u64, 0u64);
-    for seq in &seqs { for targets in ["", " targets w:t/w", " targets w:t/w@1.0.0"] {
+    for seq in &seqs { for targets in ["", " targets w:t/w", " targets w:t/w@1.0.0", "@2.0.0", "@1.0.0 targets w:t/w"] {
         if seq.len() == maxs && !targets.is_empty() && seq[0] % 2 == 1 { continue; }
         let src = format!("package test:doc{targets};\n{}\n", seq.iter().map(|i| stmts[*i]).collect::<Vec<_>>().join("\n"));
         let doc = match Document::parse(&src) { Ok(d) => d, Err(e) => { println!("C17-RESOLVE generator produced an unparsable document: {e}\n{src}"); std::process::exit(2); } };
         docs += 1;
         let keys = match wac_resolver::packages(&doc) { Ok(k) => k, Err(e) => { println!("C17-BOUNDED VIOLATION: discovery failed ({e}) for\n{src}"); std::process::exit(1); } };
+        if keys.keys().any(|k| k.name == "test:doc") { println!("C17-BOUNDED VIOLATION: discovery reports the document's own package {:?} for\n{src}", keys.keys().map(|k| k.to_string()).collect::<Vec<_>>()); std::process::exit(1); }
         let run = |exact: bool| -> Result<Vec<u8>, String> {
             let mut packages: IndexMap<BorrowedPackageKey, Vec<u8>> = IndexMap::new();
             for (n, v, b) in &lib {
